@@ -188,6 +188,25 @@ MUTANTS = [
     ("c15-ready-before-obj", "C15", "rpyc/core/async_.py",
      "        if self._is_ready:\n            return True\n        if self._ttl.expired():\n            return False",
      "        if self._is_ready:\n            return True"),
+    # ---- C09
+    ("c09-traceback-always", "C09", "rpyc/core/vinegar.py",
+     "    if include_local_traceback:\n        tbtext", "    if True:\n        tbtext"),
+    ("c09-instantiate-ignored", "C09", "rpyc/core/vinegar.py",
+     "    if instantiate_custom_exceptions:\n        if modname in sys.modules:", "    if True:\n        if modname in sys.modules:"),
+    ("c09-import-before-switch", "C09", "rpyc/core/vinegar.py",
+     "    if import_custom_exceptions and modname not in sys.modules:", "    if modname not in sys.modules:"),
+    ("c09-args-dropped", "C09", "rpyc/core/vinegar.py",
+     "    exc.args = args\n", "    exc.args = args[:2]\n"),
+    ("c09-private-attrs-leak", "C09", "rpyc/core/vinegar.py",
+     "        elif name.startswith(\"_\") or name in ignored_attrs:", "        elif name.startswith(\"__\") or name in ignored_attrs:"),
+    ("c09-constructor-called", "C09", "rpyc/core/vinegar.py",
+     "        try:\n            exc = cls.__new__(cls)", "        try:\n            exc = cls(*args) if len(args) == 3 else cls.__new__(cls)"),
+    ("c09-no-baseexception-test", "C09", "rpyc/core/vinegar.py",
+     "    if not isinstance(cls, type) or not issubclass(cls, BaseException):\n        cls = None", "    if not isinstance(cls, type):\n        cls = None"),
+    ("c09-version-always", "C09", "rpyc/core/vinegar.py",
+     "    if include_local_version:\n", "    if True:\n"),
+    ("c09-stopiteration-fastpath", "C09", "rpyc/core/vinegar.py",
+     "    if typ is StopIteration and (val is None or not (val.args or getattr(val, \"__dict__\", None))):", "    if typ is StopIteration:"),
     # ---- C10
     ("c10-decref-le", "C10", "rpyc/lib/colls.py",
      "            if slot[1] < count:", "            if slot[1] <= count:"),
